@@ -350,7 +350,16 @@ pub fn run(opts: &Opts) -> i32 {
         inputs.push((format!("regression{k}"), scratch.join("r.zy"), text.to_string()));
     }
     for i in 0..n {
-        match i % 4 {
+        match i % 5 {
+            | 4 => {
+                // every form of the surface grammar, syntactically valid, rarely well formed; under
+                // the prelude half of the time so that names resolve and checking goes deeper
+                let mut r2 = rng.fork();
+                let mut g = crate::surfgen::SurfGen::new(&mut r2);
+                let body = g.program(1 + (i % 4) as u32);
+                let text = if rng.chance(1, 2) { format!("{}{body}", crate::c04::MIN_PRELUDE) } else { body };
+                inputs.push(("grammar".into(), scratch.join("g.zy"), text));
+            }
             | 0 => inputs.push(("soup".into(), scratch.join("s.zy"), gen_soup(&mut rng))),
             | 1 => {
                 let depth = 1 + rng.below(4) as usize;
